@@ -39,7 +39,7 @@ var c13Descs = map[string]string{
 // operations: "reg:<name>:<desc>", "serve", "shutdown", "query" (a fresh client connection while serving),
 // "dquery" (in-process HandleMessage, any state), "conn" (open a connection that is kept), "pquery" (query on the
 // kept connection, also after Shutdown: it stays served until it is closed)
-var c13Ops = []string{"reg:a.b:d1", "reg:a.c:d2", "reg:é.x:d3", "reg:a.b:d4", "reg:org.varlink.service:d1", "reg:org.varlink.resolver:d1", "serve", "servel", "shutdown", "query", "dquery", "conn", "pquery"}
+var c13Ops = []string{"reg:a.b:d1", "reg:a.c:d2", "reg:é.x:d3", "reg:a.b:d4", "reg:org.varlink.service:d1", "reg:org.varlink.resolver:d1", "serve", "servel", "shutdown", "query", "dquery", "conn", "pquery", "other"}
 
 // capture is the ReadWriterContext handed to HandleMessage by an in-process caller.
 type capture struct{ out []byte }
@@ -225,8 +225,25 @@ func c13Body(d c13Desc) func() {
 				}
 		}
 		_ = doQuery
+		var other *varlink.Service
+		others := 0
 		for step, op := range d.Hist {
 			switch {
+			case op == "other":
+				// another Service value of the same process registers an interface of its own: nothing of this service's
+				// introspection data may change (and the other service answers for itself)
+				if other == nil {
+					o, err := varlink.NewService("ov", "op", "ow", "ou")
+					if err != nil {
+						fail("step %d: second NewService: %v", step, err)
+						break
+					}
+					other = o
+				}
+				others++
+				if err := other.RegisterInterface(&disp{name: fmt.Sprintf("o.t%d", others), desc: "interface o.t\nmethod R() -> ()\n", w: w}); err != nil {
+					fail("step %d: RegisterInterface on a second, idle service of the process returned %v", step, err)
+				}
 			case strings.HasPrefix(op, "reg:"):
 				p := strings.SplitN(op, ":", 3)
 				name, desc := p[1], c13Descs[p[2]]
